@@ -21,6 +21,7 @@ from . import sym
 from .ctx import Abort, Unsupported
 from .sym import (
     BStr,
+    PList,
     Opaque,
     PyRaise,
     Rec,
@@ -128,6 +129,15 @@ def getattr(interp, obj, name):
         from .interp import BoundM
 
         return BoundM(obj, name)
+    if isinstance(obj, Rec) and obj.cls_name == "ParserCtx":
+        # A-ANTLR-TREE stub: getText() = concatenation of leaf texts; rule accessors return child contexts
+        if name == "getText":
+            return _Closure(lambda: obj.fields["text"])
+        if name in ("children", "start"):
+            return obj.fields[name]
+        if "sub:" + name in obj.fields:
+            return _Closure(lambda: obj.fields["sub:" + name])
+        raise Unsupported(f"parser context accessor {name} not declared in the contract")
     return M
 
 
@@ -138,6 +148,11 @@ def iterate(interp, v):
 # ---------------------------------------------------------------------------------------
 # small model objects
 # ---------------------------------------------------------------------------------------
+class _Closure:
+    def __init__(self, fn):
+        self.fn = fn
+
+
 class _TimeDelta:
     def __init__(self, days):
         self.days = days
@@ -632,6 +647,11 @@ def call_method(interp, obj, name, args, kwargs):
         return list_method(interp, obj, name, args, kwargs)
     if isinstance(obj, SList):
         return slist_method(interp, obj, name, args, kwargs)
+    if isinstance(obj, sym.PList):
+        if name == "append":
+            obj.tail.append(args[0])
+            return None
+        raise Unsupported(f"list.{name} on an object list with unknown prefix")
     if isinstance(obj, dict):
         return dict_method(interp, obj, name, args, kwargs)
     if isinstance(obj, SMap):
@@ -659,6 +679,16 @@ def call_method(interp, obj, name, args, kwargs):
     raise Unsupported(f"method {type(obj).__name__}.{name}")
 
 
+def _bstr_find(ctx, chars, sep: str, start: int) -> int:
+    """First index >= start where the concrete `sep` occurs in the bounded string (forks per position)."""
+    iv = lambda c: z3.IntVal(c) if isinstance(c, int) else c
+    for i in range(start, len(chars) - len(sep) + 1):
+        t = z3.And(*[iv(chars[i + j]) == ord(sep[j]) for j in range(len(sep))])
+        if ctx.branch(t, f"find@{i}"):
+            return i
+    return -1
+
+
 def _as_bstr_chars(v):
     if isinstance(v, BStr):
         return v.chars
@@ -678,6 +708,45 @@ def str_method(interp, s, name, args, kwargs):
             raise PyRaise(type(e).__name__, str(e))
     chars = _as_bstr_chars(s)
     iv = lambda c: z3.IntVal(c) if isinstance(c, int) else c
+    if chars is not None and name in ("find", "index", "partition", "rpartition", "split", "count", "rfind") and args and isinstance(mk(args[0]), str) and mk(args[0]):
+        sep = mk(args[0])
+        if name in ("find", "index", "partition"):
+            i = _bstr_find(ctx, chars, sep, 0)
+            if name == "find":
+                return i
+            if name == "index":
+                if i < 0:
+                    raise PyRaise("ValueError", "substring not found")
+                return i
+            if i < 0:
+                return (mk(BStr(chars)), "", "")
+            return (mk(BStr(chars[:i])), sep, mk(BStr(chars[i + len(sep):])))
+        if name in ("rfind", "rpartition"):
+            last = -1
+            pos = 0
+            while True:
+                i = _bstr_find(ctx, chars, sep, pos)
+                if i < 0:
+                    break
+                last, pos = i, i + 1
+            if name == "rfind":
+                return last
+            if last < 0:
+                return ("", "", mk(BStr(chars)))
+            return (mk(BStr(chars[:last])), sep, mk(BStr(chars[last + len(sep):])))
+        if name in ("split", "count"):
+            if len(args) > 1:
+                raise Unsupported("split with maxsplit on symbolic string")
+            parts, pos, n = [], 0, 0
+            while True:
+                i = _bstr_find(ctx, chars, sep, pos)
+                if i < 0:
+                    parts.append(mk(BStr(chars[pos:])))
+                    break
+                parts.append(mk(BStr(chars[pos:i])))
+                pos = i + len(sep)
+                n += 1
+            return parts if name == "split" else n
     if name in ("startswith", "endswith"):
         (p,) = args[:1]
         if len(args) > 1:
@@ -796,7 +865,24 @@ def str_method(interp, s, name, args, kwargs):
 
 
 def split_model(interp, s, args, kwargs):
-    raise Unsupported("str.split on unbounded symbolic string")
+    """s.split(sep) with a constant non-empty sep: an uninterpreted list with the facts callers use:
+    at least one part; part 0 is the text before the first separator (or s when there is none);
+    exactly one part iff the separator does not occur."""
+    ctx = interp.ctx
+    if not args or kwargs or not isinstance(mk(args[0]), str) or not mk(args[0]):
+        raise Unsupported("str.split() without a constant separator on an unbounded symbolic string")
+    sep = mk(args[0])
+    zs = zstr(s)
+    lty = sym.TListVal(sym.TStr())
+    uf = sym.ufun("str_split_" + "_".join(str(ord(c)) for c in sep), z3.StringSort(), lty.sort())
+    t = uf(zs)
+    S = lty.sort()
+    idx = z3.IndexOf(zs, z3.StringVal(sep), 0)
+    ctx.assume(S.len(t) >= 1)
+    ctx.assume(z3.Select(S.arr(t), 0) == z3.If(idx < 0, zs, z3.SubString(zs, 0, idx)))
+    ctx.assume((S.len(t) == 1) == (idx < 0))
+    interp.used_models.add("str.split(sep): uninterpreted list with len>=1, parts[0] = text before the first sep, len==1 iff sep absent")
+    return lty.wrap(t)
 
 
 def list_method(interp, lst: list, name, args, kwargs):
